@@ -463,7 +463,8 @@ def mc_phase(ctx, pid, insts, code_dependent):
             raise vp.ToolError(f"PubSub.tla violates {res.violated} on {name}:\n{res.output[-3000:]}")
         if not res.ok:
             raise vp.ToolError(f"TLC failed on {name}: {res.error}\n{res.output[-3000:]}")
-        check_coverage(res, name)
+        impossible = {"ASend", "ADropLoan", "ADropSample"} if q["loan"] == 0 else set()
+        check_coverage(res, name, [a for a in ACTIONS if a not in impossible])
     ctx.coverage["number_of_samples_read_from_code"] = {i[0]: n for i, n in zip(insts, ns)}
 
 
